@@ -121,7 +121,10 @@ def build(S):
         S.contract("mirror[lsn<->usn]", FN_SN, run_mirror_sn, expected_exceptions=(ValueError,), raises_ok=lambda p: True, shape="sizes symbolic")
         S.contract("calcMetric[sign equivariance, orthogonal]", "hypnotoad.core.mesh:MeshRegion.calcMetric", make_sign_run(True), expected_exceptions=(ValueError,), shape="one point")
         S.contract("calcMetric[sign equivariance, non-orthogonal]", "hypnotoad.core.mesh:MeshRegion.calcMetric", make_sign_run(False), expected_exceptions=(ValueError,), shape="one point")
-        from . import C03, C10
+        from . import C03, C09, C10
+
+        S.under_contract(C09.FN)
+        C09.add_negation(S)  # the radial psi grid of the negated flux is the negated grid
 
         S.under_contract(C03.FN_INIT)
         C03.add_extrapolate_preprocessed(S)
